@@ -25,12 +25,15 @@ type HistOpt struct {
 	Col        ColumnOpt
 	Lim        Limits
 	FixedCfg   *hist.Cfg
+	Scale      bool // occasionally produce long transactions (> 1024 rows events) and long histories (> 1024 events)
+	ScaleTx    bool // long transactions only
+	ScaleRows  bool // rows events with more than a thousand rows only
 }
 
 // DefaultHistOpt is the C01 shape.
 func DefaultHistOpt(lim Limits, thorough bool) HistOpt {
 	o := HistOpt{MaxUnits: 6, MaxItems: 4, MaxRowsEv: 3, MaxRows: 5, MaxTables: 4, MaxCols: 12, Rotations: 2, BigBase: true, Ignorables: true,
-		Kinds: []hist.UnitKind{hist.UTxXID, hist.UTxXID, hist.UTxCommit, hist.UTxRollback, hist.UDDL, hist.UAutoRows, hist.UStmtDML}, Lim: lim}
+		Kinds: []hist.UnitKind{hist.UTxXID, hist.UTxXID, hist.UTxCommit, hist.UTxRollback, hist.UDDL, hist.UAutoRows, hist.UStmtDML}, Lim: lim, Scale: true}
 	if thorough {
 		o.MaxUnits = 20
 		o.MaxTables = 8
@@ -210,12 +213,30 @@ func RowsEvent(t *rapid.T, tables []hist.Table, ti int, ck *clock, o HistOpt) hi
 		}
 		r.Rows = append(r.Rows, row)
 	}
+	if (o.Scale || o.ScaleRows) && len(r.Rows) > 0 && rapid.IntRange(0, 39).Draw(t, "big_rows_event") == 0 {
+		// one rows event with more than a thousand rows (what a bulk statement produces)
+		small := true
+		for _, v := range append(append([]hist.Value{}, r.Rows[0].Before...), r.Rows[0].After...) {
+			small = small && v.B.Len() < 100 && v.J == nil
+		}
+		if small {
+			n := rapid.SampledFrom([]int{1024, 1025, 1100, 2500}).Draw(t, "big_rows_n")
+			first := r.Rows[0]
+			r.Rows = make([]hist.Row, n)
+			for i := range r.Rows {
+				r.Rows[i] = first
+			}
+		}
+	}
 	return r
 }
 
 var unknownStmts = []string{"SAVEPOINT x", "FLUSH TABLES", "GRANT ALL ON *.* TO u", "ANALYZE TABLE t", "XA START 'x'", "savepoint `s1`", "OPTIMIZE TABLE t", "RELEASE SAVEPOINT x"}
 var ddlStmts = []string{"create TABLE t (a int)", "alter TABLE t ADD b int", "drop TABLE t", "rename TABLE a TO b", "truncate TABLE t", "set PASSWORD FOR u = 'x'", "create", "drop DATABASE d"}
 var dmlStmts = []string{"insert INTO t VALUES (1)", "update t SET a = 2", "delete FROM t WHERE a = 1", "insert", "delete"}
+
+// statements that are logged INSIDE a BEGIN...COMMIT group although they are DDL (temporary tables) or SET
+var inTxStmts = []string{"create TEMPORARY TABLE tmp (a int)", "drop TEMPORARY TABLE IF EXISTS tmp", "alter TABLE tmp ADD b int", "truncate TABLE tmp", "set @a = 1", "rename TABLE tmp TO tmp2"}
 
 func recase(t *rapid.T, sql string) string {
 	i := strings.IndexByte(sql, ' ')
@@ -340,6 +361,7 @@ func Config(t *rapid.T) hist.Cfg {
 	c.ServerID = rapid.SampledFrom([]uint32{1, 2, 1<<31 - 1, 1 << 31, 1<<32 - 1, 12345}).Draw(t, "master_id")
 	c.CreateTS = rapid.Uint32Range(1, 1<<31).Draw(t, "create_ts")
 	c.PadBits = rapid.IntRange(0, 2).Draw(t, "pad_bits")
+	c.OptMeta = rapid.IntRange(0, 2).Draw(t, "opt_meta") == 0
 	return c
 }
 
@@ -439,13 +461,36 @@ func History(t *rapid.T, o HistOpt) *hist.History {
 				case k <= 6 || !o.Ignorables && k >= 8:
 					u.Items = append(u.Items, rowsItem(t, h.Tables, ck, o))
 				case k == 7:
-					u.Items = append(u.Items, hist.Item{Kind: hist.IQuery, Q: query(t, ck, db, recase(t, rapid.SampledFrom(dmlStmts).Draw(t, "dml")))})
+					pool := dmlStmts
+					if rapid.IntRange(0, 2).Draw(t, "in_tx_ddl") == 0 {
+						pool = inTxStmts
+					}
+					u.Items = append(u.Items, hist.Item{Kind: hist.IQuery, Q: query(t, ck, db, recase(t, rapid.SampledFrom(pool).Draw(t, "dml")))})
 				case k == 8:
 					u.Items = append(u.Items, hist.Item{Kind: hist.IUnknownStmt, Q: query(t, ck, db, recase(t, rapid.SampledFrom(unknownStmts).Draw(t, "ustmt")))})
 				default:
 					typ, body, ts := ignorableEvent(t, ck, true)
 					use(typ)
 					u.Items = append(u.Items, hist.Item{Kind: hist.IUnknownEvent, EvType: typ, Body: body, TS: ts})
+				}
+			}
+			if (o.Scale || o.ScaleTx) && rapid.IntRange(0, 39).Draw(t, "long_tx") == 0 {
+				// one statement split into very many rows events (a long transaction)
+				for j := range u.Items {
+					if u.Items[j].Kind == hist.IRows {
+						small := true
+						for _, r := range u.Items[j].Rows {
+							for _, row := range r.Rows {
+								for _, v := range append(append([]hist.Value{}, row.Before...), row.After...) {
+									small = small && v.B.Len() < 200 && v.J == nil
+								}
+							}
+						}
+						if small {
+							u.Items[j].Repeat = rapid.SampledFrom([]int{4, 11, 21, 41, 1100}).Draw(t, "long_tx_repeat")
+						}
+						break
+					}
 				}
 			}
 			switch kind {
@@ -487,6 +532,71 @@ func History(t *rapid.T, o HistOpt) *hist.History {
 		}
 	}
 	between()
+	if o.Scale && len(h.Units) > 0 && rapid.IntRange(0, 49).Draw(t, "long_history") == 0 {
+		// a long history: the units in front of the first file change are repeated until the stream has well
+		// over a thousand events
+		cut := len(h.Units)
+		for i, u := range h.Units {
+			if u.Kind == hist.URotate || u.Kind == hist.UFileEnd {
+				cut = i
+				break
+			}
+		}
+		small := true
+		for _, u := range h.Units[:cut] {
+			for _, it := range u.Items {
+				if it.Repeat > 1 {
+					small = false
+				}
+				for _, r := range it.Rows {
+					for _, row := range r.Rows {
+						for _, v := range append(append([]hist.Value{}, row.Before...), row.After...) {
+							small = small && v.B.Len() < 300 && v.J == nil
+						}
+					}
+				}
+			}
+		}
+		if cut > 0 && small {
+			k := rapid.SampledFrom([]int{30, 120, 300}).Draw(t, "long_history_k")
+			if k*cut > 1500 {
+				k = 1500/cut + 1
+			}
+			head := h.Units[:cut]
+			tail := append([]hist.Unit{}, h.Units[cut:]...)
+			var rep []hist.Unit
+			for i := 0; i < k; i++ {
+				rep = append(rep, head...)
+			}
+			h.Units = append(rep, tail...)
+		}
+	}
+	if o.Scale && rapid.IntRange(0, 49).Draw(t, "many_tables") == 0 {
+		// hundreds of tables on one stream, statements that touch two of them: whatever the replica
+		// keeps per table id must survive that
+		nt := rapid.SampledFrom([]int{130, 260, 300, 520}).Draw(t, "many_tables_n")
+		base := len(h.Tables)
+		for i := 0; i < nt; i++ {
+			h.Tables = append(h.Tables, hist.Table{DB: "many", Name: fmt.Sprintf("t%d", i), ID: uint64(100000 + i),
+				Cols: []hist.Column{{Name: "id", Type: refenc.TLong}, {Name: "v", Type: refenc.TVarchar, Len: 20, Nullable: true}}})
+		}
+		val := func(n int) []hist.Value {
+			return []hist.Value{{U: uint64(n)}, {B: refenc.Lit([]byte(fmt.Sprintf("v%d", n)))}}
+		}
+		full := []bool{true, true}
+		nst := rapid.SampledFrom([]int{nt, nt + 300, 2 * nt}).Draw(t, "many_tables_stmts")
+		for i := 0; i < nst; i++ {
+			a, b := base+i%nt, base+(i*7+3)%nt
+			if a == b {
+				b = base + (a-base+1)%nt
+			}
+			u := hist.Unit{Kind: hist.UTxXID, Begin: &hist.Query{DB: "many", SQL: "BEGIN", TS: ck.now}, XID: uint64(i), TS: ck.now,
+				Items: []hist.Item{{Kind: hist.IRows, Maps: []int{a, b}, TS: ck.now, Rows: []hist.RowsEv{
+					{Table: a, Kind: 0, Present1: full, TS: ck.now, Rows: []hist.Row{{After: val(i)}}},
+					{Table: b, Kind: 2, Present1: full, TS: ck.now, Rows: []hist.Row{{Before: val(i + 1)}}}}}}}
+			h.Units = append(h.Units, u)
+		}
+	}
 	if gtidMode != 0 {
 		use(refenc.EvPreviousGTIDs)
 	}
